@@ -290,13 +290,14 @@ def main():
         exe_m = os.path.join(d, "spawn2")
         rc, so, se = run(["gcc", "-O1", "-w", "-I", d, "-I", os.path.join(REPO, "w2c2"), "-I", os.path.join(REPO, "wasi"), *wasi.WDEFS,
                           os.path.join(BINDC, "spawn2_driver.c"), *[os.path.join(d, n + ".c") for n in TAGS], os.path.join(REPO, "wasi", "wasi.c"),
-                          "-o", exe_m, "-lpthread", "-lm"], timeout=300)
+                          "-Wl,--wrap=pthread_create", "-o", exe_m, "-lpthread", "-lm"], timeout=300)
         if rc != 0:
             raise common.MachineryError("cannot build the multi-module spawn driver: " + se[-1500:])
         orders = ["naabbnab", "bna", "abab", "nn", "anb"] if tier == "quick" else ["naabbnab", "bna", "abab", "nn", "anb", "ba", "ab", "nbnanb", "aaaa", "bbbbna"] * 4
-        for oi, order in enumerate(orders):
-            K = [0, 2, 4, 8][oi % 4]
-            rc, so, se = run([exe_m, str(K), order], timeout=60)
+        # (the last runs: the host cannot create every third thread - those spawns fail, the others keep distinct identifiers)
+        runs_ = [(order, [0, 2, 4, 8][oi % 4], 0) for oi, order in enumerate(orders)] + [("ab", 8, 3), ("aabb", 12, 2)] * (1 if tier == "quick" else 10)
+        for order, K, fail_every in runs_:
+            rc, so, se = run([exe_m, str(K), order], timeout=60, env={"SPAWN_FAIL_EVERY": str(fail_every)} if fail_every else None)
             try:
                 h = json.loads(so.strip().splitlines()[-1])
             except (ValueError, IndexError):
@@ -304,12 +305,14 @@ def main():
                 continue
             modtag = {1: TAGS["ta"], 2: TAGS["tb"], 3: TAGS["tn"]}
             recs.append({"kind": "spawn",
-                         "spawns": [{"arg": s["arg"], "tid": max(s["ret"], 0), "neg": s["ret"] < 0, "mod": s["mod"], "hasStart": s["mod"] != 3} for s in h["spawns"]],
+                         "spawns": [{"arg": s["arg"], "tid": max(s["ret"], 0), "neg": s["ret"] < 0, "mod": s["mod"],
+                                     # (a spawn can succeed if its module has the start function and the host could create the thread)
+                                     "hasStart": s["mod"] != 3 and not s.get("fail")} for s in h["spawns"]],
                          # which start function ran is read from the tag it added to the argument; on which module's instance from the callback used
                          "starts": [{"tid": s["tid"] % 2 ** 31, "arg": (s["arg"] - modtag[s["mod"]]) % 2 ** 31, "mod": s["mod"] if 0 <= s["arg"] - modtag[s["mod"]] < 100000 else 99,
                                      "shared": bool(s["shared"]), "parentinstance": bool(s["parent"])} for s in h["starts"]],
                          "cell": h["cell"]})
-            owner.append(("spawn", "multi:" + order, h))
+            owner.append(("spawn", "multi:" + order + (":host-cannot-create-every-%d" % fail_every if fail_every else ""), h))
         # --- TLC judges everything and computes the layouts
         inf, outf = os.path.join(wd, "proc.ndjson"), os.path.join(wd, "judged.ndjson")
         # uniform records for TLC
